@@ -12,6 +12,17 @@ def run(ctx):
     if ctx.thorough:
         ctx.tlc_mc(fam, "KeyLock_MC", "KeyLock_MC.cfg", workers=16, timeout=3000, heap="16g")
         ctx.tlc_mc(fam, "KeyLock_MC", "KeyLock_MC_any.cfg", workers=16, timeout=3000, heap="16g")
+    # unbounded design-level safety (extras/ind.md): KeyLock_Ind restates the design without sequences; TLC
+    # checks the refinement KeyLock -> KeyLock_Ind action by action, Apalache proves IndInv inductive for any
+    # number of calls per process (the MC configs have Budget = 1); thorough tier only: the step takes minutes
+    ctx.tlc_mc(fam, "KeyLock_IndRef", "KeyLock_IndRef_small.cfg", workers=4, label="refinement KeyLock -> KeyLock_Ind")
+    if ctx.thorough:
+        ctx.tlc_mc(fam, "KeyLock_IndRef", "KeyLock_IndRef_any.cfg", workers=4,
+                   label="refinement KeyLock -> KeyLock_Ind, policy Any")
+        ctx.apalache_ind(fam, "KeyLock_Ind", cinit="CInit", timeout=3000,
+                         label="KeyLock_Ind: IndInv inductive; any number of calls, 3 procs, 2 keys, GoRW")
+        ctx.apalache_ind(fam, "KeyLock_Ind", cinit="CInitDev", timeout=3000, expect_violation=True,
+                         label="KeyLock_Ind witness: not inductive when freeing ignores writers")
     pdir, plans = ctx.tlc_plans(fam, "KeyLock_Gen", "KeyLock_Gen.cfg", num=ctx.q(120, 1500), depth=40)
     binary = ctx.go_build("c02")
     ctx.harness(binary, ["-plans", pdir, "-out", ctx.path("steps.ndjson"), "-stress", ctx.path("stress.ndjson"),
